@@ -18,6 +18,7 @@ class Program:
         self.origin = origin          # 'tree' | 'corpus'
         self.expect_fail = expect_fail
         self.c = None; self.h = None; self.rc = None; self.err = ''
+        self.variant = False      # an extra back-end run added by the thorough tier, not an invocation of the build
         self.dep = 'hash'
         for i, a in enumerate(args):
             if a in ('--dep-management', '-M') and i + 1 < len(args):
@@ -161,6 +162,7 @@ class Gen:
             for p in progs:
                 if '--dep-management' not in p.args and not p.expect_fail:
                     q = Program(p.name, p.jdf, ['--dep-management', 'index-array'] + p.args, p.flags, p.cwd, p.origin)
+                    q.variant = True
                     extra.append(q)
             progs += extra
         progs += self.corpus_programs(both)
@@ -169,7 +171,7 @@ class Gen:
         return progs
 
     # ------------------------------------------------------------------ generate + analyse
-    def scan(self, progs, query, keep_failed=False):
+    def scan(self, progs, query, keep_failed=False, tolerate_parse_errors=False):
         """For every program: run the scratch ptgpp, extract the emitted C, run the module-level
         function query(unit, prog) -> picklable; returns [(prog, result)] in corpus order.
         A program that ptgpp rejects has result None (prog.rc/err filled in)."""
@@ -182,6 +184,9 @@ class Gen:
         res = []
         with ProcessPoolExecutor(driver.NPROC) as ex:
             for p, r, err in ex.map(_gen_one, jobs):
+                if err and tolerate_parse_errors and err.startswith('emitted C does not parse'):
+                    p.rc = -3; p.err = err
+                    err = None
                 if err:
                     raise AnalysisBroken('gen: %s: %s' % (p.label(), err))
                 res.append((p, r))
